@@ -124,7 +124,11 @@ def unsym(e):
 def gen_qb(tier, rnd, stats):
     cfg = "Gen_qb_%s.cfg" % tier
     behs, states, trans, dt = tlc_behaviours(cfg, "MC_LibQB.tla")
-    stats["mc"].append({"cfg": cfg, "role": "behaviour generator", "states": states, "transitions": trans, "behaviours": len(behs), "wall_s": round(dt, 1)})
+    nall = len(behs)
+    if nall > 2500:
+        behs = rnd.sample(behs, 2500)
+    stats["mc"].append({"cfg": cfg, "role": "behaviour generator", "states": states, "transitions": trans, "behaviours": nall,
+                        "behaviours_replayed": len(behs), "wall_s": round(dt, 1)})
     stats["states"] += states
     stats["transitions"] += trans
     b = Beh()
